@@ -51,7 +51,7 @@ pub fn oracle_props(oracle: &str) -> &'static [&'static str] {
         "limit_exceeded" | "empty_not_eof" => &["C03"],
         "deadline_overrun" | "early_timeout" | "timeout_without_limit" | "eof_as_timeout" => &["C04"],
         "unexpected_error" => &["C01", "C02", "C03", "C04"],
-        "spawn_failed" => &["C07"],
+        "spawn_failed" => &["C07", "C15"],
         "wiring" => &["C05", "C13"],
         "not_refused" | "parent_std_touched" => &["C05"],
         "ebadf_in_parent" => &["C05", "C07", "C08", "C12"],
@@ -536,12 +536,17 @@ pub fn worker(cfg: &WorkerCfg) -> BatchOut {
             let e = out.sig_counts.entry(v.signature.clone()).or_insert((0, i));
             e.0 += 1;
             let known = cfg.known.iter().any(|k| k == &v.signature);
-            if minimised.contains(&v.signature) || minimised.len() >= cfg.max_minimise {
+            if minimised.contains(&v.signature) {
+                continue;
+            }
+            // beyond the cap a signature still gets its replay file, only un-minimised
+            let over_cap = minimised.len() >= cfg.max_minimise;
+            if over_cap && minimised.len() >= cfg.max_minimise * 8 {
                 continue;
             }
             minimised.insert(v.signature.clone());
             // minimise (less effort for known findings) and persist
-            let budget = if known { 40 } else { 300 };
+            let budget = if over_cap { 0 } else if known { 40 } else { 300 };
             let (mp, mch, _tries) = minimise(&plan, &rr.choices, &v.signature, budget);
             let fin = run_plan(&mp, Some(mch.clone()));
             let (fplan, fch, frr, minim) = if fin.violations.iter().any(|x| x.signature == v.signature) { (mp, mch, fin, true) } else { (plan.clone(), rr.choices.clone(), rr.clone(), false) };
